@@ -137,8 +137,13 @@ func C19(r *Run) {
 	n := r.Pick(1500, 30000)
 	sessions := make([]Sess, n)
 	distinct := map[string]bool{}
+	gb := gen.New(r.Seed*15485863 + 100019).Big()
 	for i := range sessions {
-		sessions[i] = puritySession(g, i)
+		if i%15 == 14 {
+			sessions[i] = puritySession(gb, i)
+		} else {
+			sessions[i] = puritySession(g, i)
+		}
 		distinct[string(J(sessions[i].Meta))] = true
 		if i%2000 == 1999 {
 			r.Logf("  %d sessions generated", i+1)
